@@ -1097,7 +1097,7 @@ fn execute_once(cfg: &WorldCfg, case: &Case) -> Result<Info, Violation> {
 
 const WORLD_DOCS: &[&str] = &[
     "PaddedVecU64", "PaddedZ32", "PaddedStr", "DropProbeD", "VecU64", "BoxU32", "VecZ32", "PersonD", "DeepA", "DeepB", "DeepC", "VecString", "Str", "VecZeroP", "OptVecU64", "EnumDVec", "VecVecU32", "ArrString", "U64",
-    "VecU8", "VecU128", "IncrA", "IncrB", "IncrD", "VecZ64", "DeepD", "HolderA", "HolderB", "HolderD", "HolderE", "Z64D", "ArrVecString", "ArrOptVec", "MiscA", "MiscB", "MiscC", "TupleSD", "ArrU64x4", "E9D", "BoundString", "CfStrVec", "ConstGen3", "PhantomD", "VecPair", "Unit",
+    "VecU8", "VecU128", "IncrA", "IncrB", "IncrD", "VecZ64", "DeepD", "HolderA", "HolderB", "HolderD", "HolderE", "Z64D", "ArrVecString", "ArrOptVec", "BoxVecString", "VecVecString", "OptVecString", "BoundVecString", "CfVecStr", "EnumDVecStr", "MiscA", "MiscB", "MiscC", "TupleSD", "ArrU64x4", "E9D", "BoundString", "CfStrVec", "ConstGen3", "PhantomD", "VecPair", "Unit",
 ];
 
 fn pick_vi(r: &mut Rng, max_vi: u64) -> u64 {
